@@ -64,6 +64,10 @@ FileLockT = TypeVar('FileLockT', bound='BaseFileLock')
 
 #: All lock objects alive in this process, to fix them up after a fork
 _instances: 'weakref.WeakSet[BaseFileLock]' = weakref.WeakSet()
+#: Held while a lock file is opened until its descriptor is recorded on
+#: the lock object, and by a thread which forks: a child must not inherit
+#: a descriptor the at-fork hook doesn't know about
+_fork_lock = threading.Lock()
 
 
 def _after_fork_in_child() -> None:
@@ -76,8 +80,17 @@ def _after_fork_in_child() -> None:
         lock._forget_inherited_lock()
 
 
+def _release_fork_lock_in_child() -> None:
+    _fork_lock.release()
+    _after_fork_in_child()
+
+
 if hasattr(os, 'register_at_fork'):
-    os.register_at_fork(after_in_child=_after_fork_in_child)
+    os.register_at_fork(
+        before=_fork_lock.acquire,
+        after_in_parent=_fork_lock.release,
+        after_in_child=_release_fork_lock_in_child,
+    )
 
 
 class BaseFileLock(abc.ABC):
@@ -306,12 +319,13 @@ class BaseFileLock(abc.ABC):
         :param block:
             If True, attempt to block until the lock is acquired.
         """
-        try:
-            fd = os.open(self._lock_file, self._FD_OPEN_MODE)
-        except OSError:
-            return
-        # Also known to the at-fork hook while still waiting for the lock
-        self._pending_fd = fd
+        with _fork_lock:  # Not while (possibly) blocking on the lock below
+            try:
+                fd = os.open(self._lock_file, self._FD_OPEN_MODE)
+            except OSError:
+                return
+            # Also known to the at-fork hook while waiting for the lock
+            self._pending_fd = fd
         try:
             self._lock(fd, block)
         except (IOError, OSError):
